@@ -3,7 +3,7 @@
    `space`/`digit` = isspace/isdigit of the C locale; head_nondigit l = l is empty or starts with a non-digit;
    after l = the state a reader leaves when it stopped in front of l (eof when l is empty, good otherwise). *)
 From Coq Require Import ZArith List.
-From C19 Require Import Model ProofsBase ProofsInt ProofsRat ProofsElt ProofsHex ProofsPoly ProofsRefute ProofsDest ProofsPair ProofsBuf ProofsMore.
+From C19 Require Import Model ProofsBase ProofsInt ProofsRat ProofsElt ProofsHex ProofsPoly ProofsRefute ProofsDest ProofsPair ProofsBuf ProofsMore ProofsNoCxx.
 Local Open Scope Z_scope.
 
 (* Integer: for every z, after any white space, followed by any text not starting with a digit:
@@ -125,3 +125,13 @@ Print Assumptions C19_integer_hex_roundtrip.
 (* rationals stored unreduced (Rational(n, d, 0), d > 1): printed as they are; the reader delivers the SAME VALUE in lowest terms *)
 Theorem C19_rational_unreduced_roundtrip : Rational_unreduced_roundtrip_stmt. Proof. exact rational_unreduced_roundtrip. Qed.
 Print Assumptions C19_rational_unreduced_roundtrip.
+(* Integer reader of the build WITHOUT the GMP C++ streams (gmp++_int_io.C under __GIVARO_GMP_NO_CXX / __PATHCC__): with a table
+   base[k-1] = 10^k (k = 1..9; the table is a parameter, the check reads it from the source and re-checks table_ok on every run)
+   the packet reader computes the value of the decimal string; what Integer::print writes is read back (failbit too when the number
+   ends the input: that branch's behaviour); one wrong entry is wrong on a value (seeded change C19-m10) *)
+Theorem C19_nocxx_packets : Nocxx_packets_stmt.                             Proof. exact nocxx_packets. Qed.
+Print Assumptions C19_nocxx_packets.
+Theorem C19_integer_nocxx_roundtrip : Integer_nocxx_roundtrip_stmt.         Proof. exact integer_nocxx_roundtrip. Qed.
+Print Assumptions C19_integer_nocxx_roundtrip.
+Theorem C19_nocxx_table_matters : Nocxx_table_matters_stmt.                 Proof. exact nocxx_table_matters. Qed.
+Print Assumptions C19_nocxx_table_matters.
